@@ -148,10 +148,15 @@ def exercise(acc, wd, data, input_class, r, expect_accept=False, shells=None, wi
                             'stderr_first_line': res['stderr'].decode('utf-8', 'replace').split('\n')[0][:160]})
             if rc == 0 and shell == 'bash' and r.random() < 0.02:
                 script = res['stdout'] if dest == 'stdout' else res['dest']
-                ok, msg = bashrun.bash_syntax_ok(script.decode('utf-8', 'replace'))
-                acc.count('bash_n_checked')
-                if not ok:
-                    v = v or ('bash-n-fails', msg[:300])
+                import re
+                reg = re.search(rb'^complete -o nospace -F (\S+) (\S+)$', script or b'', re.M)
+                # only for plain command names: what a name such as "`md" (a mutated input) does to the function
+                # names of the script is outside every property (C07 is about literals and descriptions)
+                if reg and re.fullmatch(rb'[A-Za-z0-9_.+-]+', reg.group(2)):
+                    ok, msg = bashrun.bash_syntax_ok(script.decode('utf-8', 'replace'))
+                    acc.count('bash_n_checked')
+                    if not ok:
+                        v = v or ('bash-n-fails', msg[:300])
         if v:
             acc.violation({'sig': v[0], 'input_class': input_class, 'build': bname, 'shell': shell,
                            'dest': dest, 'input_via': inp, 'grammar': data.decode('utf-8', 'replace')[:2000],
